@@ -19,3 +19,24 @@ VARIANTS = [
          edits=[dict(file=M, old=_OLD, new=_NEW.replace("        self.add_subscription(src_module, self.message)\n        self.send_ack(src_module)\n", "        self.add_subscription(src_module, self.message)\n")),
                 dict(file=M, old=_CLS, new=_TABLE + _CLS)]),
 ]
+
+_LOOP_OLD = "        for n in range(len(subscribers)):\n            module = subscribers[n]\n            # Skip modules removed while handling a failure earlier in this loop\n            if module.conn not in self.modules:\n                continue\n"
+_LOOP_ALIAS = "        modules = self.modules\n        for n in range(len(subscribers)):\n            module = subscribers[n]\n            # Skip modules removed while handling a failure earlier in this loop\n            if module.conn not in modules:\n                continue\n"
+_LOOP_COPY = _LOOP_ALIAS.replace("modules = self.modules", "modules = dict(self.modules)")
+
+VARIANTS += [
+    # bind-before-the-loop: an alias of the live table is read as the table; a copy of it is a stale snapshot
+    dict(name="c03-silent-modules-table-bound-to-local", property="C03", expect="silent", file=M, old=_LOOP_OLD, new=_LOOP_ALIAS),
+    dict(name="c07-silent-modules-table-bound-to-local", property="C07", expect="silent", file=M, old=_LOOP_OLD, new=_LOOP_ALIAS),
+    dict(name="c03-liveness-against-copied-table", property="C03", rule="C03-U", file=M, old=_LOOP_OLD, new=_LOOP_COPY),
+    dict(name="c07-liveness-against-copied-table", property="C07", rule="C07-S", file=M, old=_LOOP_OLD, new=_LOOP_COPY),
+]
+
+_CUR_OLD = "            self.next_dynamic_mod_id_offset += 1\n            if self.next_dynamic_mod_id_offset == MAX_DYN_IDS:\n                self.next_dynamic_mod_id_offset = 0\n"
+_CUR_WALRUS = "            self.next_dynamic_mod_id_offset = 0 if (following := self.next_dynamic_mod_id_offset + 1) == MAX_DYN_IDS else following\n"
+
+VARIANTS += [
+    # walrus + conditional expression for the cursor step; wrapping one step late lets the cursor reach the span
+    dict(name="c06-silent-cursor-step-by-walrus", property="C06", expect="silent", file=M, old=_CUR_OLD, new=_CUR_WALRUS),
+    dict(name="c06-cursor-step-by-walrus-wraps-late", property="C06", rule="C06-G", file=M, old=_CUR_OLD, new=_CUR_WALRUS.replace("== MAX_DYN_IDS", "> MAX_DYN_IDS")),
+]
